@@ -128,6 +128,22 @@ def cfg_copy(cfg):
     return c
 
 
+INT_LIMIT = {'now': None}
+
+
+def with_int_limit(limit, fn):
+    "runs fn() with sys.set_int_max_str_digits(limit) - what a host application may do at any time after importing the library - and restores the setting"
+    import sys
+    old = sys.get_int_max_str_digits()
+    sys.set_int_max_str_digits(limit)
+    INT_LIMIT['now'] = limit
+    try:
+        return fn()
+    finally:
+        sys.set_int_max_str_digits(old)
+        INT_LIMIT['now'] = None
+
+
 class Mon:
     def __init__(self, ctx):
         import emmet
@@ -152,6 +168,8 @@ class Mon:
         r = probes.bounded(lambda: self.expand(s, c), ctx, 'expand')
         ctx.mon('termination:bounded')
         case = {'input': s, 'config_name': name, 'config': cfg}
+        if INT_LIMIT['now'] is not None:
+            case['int_max_str_digits'] = INT_LIMIT['now']
         if r[0] == 'inconclusive':
             raise core.OracleError('step-counted re-run hit the wall-clock watchdog for %r / %s' % (s, name))
         if r[0] == 'nonterm':
@@ -280,6 +298,19 @@ def run_shard(desc, ctx):
                 mon.check(s, 'html', {'maxRepeat': 3}, 'markup:extreme-run:d2-lorem')
             import sys
             lim = getattr(sys, 'get_int_max_str_digits', lambda: 4300)() or 4300
+
+            def lowered():
+                # the same numbers when the HOST has lowered the interpreter's limit after importing the library
+                for L in (699, 700, 701, 1500):
+                    for d in '91':
+                        run = d * L
+                        for s in ('li.i$@%s*3' % run, 'li*' + run, 'li.i$@-%s*3' % run, 'p{${%s}}' % run, 'p{${%s:x}}' % run, 'a[b=${%s}]' % run, 'p{%s}' % run, 'h' + run,
+                                  '(a+b)*' + run, 'p{$@%s}*2' % run):
+                            mon.check(s, 'html', {'maxRepeat': 3}, 'markup:extreme-run:lowered-limit')
+                        for s in ('p${%s}' % run, 'p${%s:x}' % run, 'p' + run, 'p.' + run, 'p-' + run, 'c#f.' + run, 'p%s.%s' % (run, run)):
+                            mon.check(s, 'css', {'type': 'stylesheet'}, 'css:extreme-run:lowered-limit')
+            if desc.get('first'):
+                with_int_limit(700, lowered)
             for L in (lim - 2, lim - 1, lim, lim + 1):
                 # both sides of the interpreter's int <-> str conversion limit, for every number the languages read, with the digits
                 # that make base + counter one digit longer
@@ -377,6 +408,8 @@ def run_shard(desc, ctx):
 
 
 def replay(case, ctx):
+    if case.get('int_max_str_digits') is not None and INT_LIMIT['now'] is None:
+        return with_int_limit(case['int_max_str_digits'], lambda: replay(case, ctx))
     named = dict(MARKUP_CFGS)
     named.update({'css:' + k: v for k, v in CSS_CFGS})
     styl = (case['config'] or {}).get('type') == 'stylesheet'
